@@ -17,7 +17,9 @@ RULE = (
     "{-0.6,-0.001,0.001,0.6}^2 x turnout pairs {(1,1),(0.5,1),(1,0.5)} (B=2; reduced alphabet for B=3,4) x 8 point predictions, three outstanding units in two "
     "contests: unit lower <= upper, group lower < pred < upper, and for alphas 0.5<0.8<0.95 the intervals are nested at unit and group level; "
     "(c) real client runs with B in {2,3,10}, fixed / cross-validated lambda, with/without fixed effects and districts, partial percentages {0,20,60,95}, "
-    "normal and extreme (baseline margins +-0.95, one-party results) elections: pred_margin in [-1,1], pred_turnout >= 0 and the relations of (b). "
+    "normal and extreme (baseline margins +-0.95, one-party results) elections, and runs with the presidential correction enabled (its three remote files "
+    "served by the object-store seam) on a one-party outstanding county whose corrected margin exceeds the feasible range: pred_margin in [-1,1], "
+    "pred_turnout >= 0 and the relations of (b). "
     "non-trivial = (b) the draws are not all equal; (c) the run has outstanding units"
 )
 ASSUMPTIONS = ["(b) quantiles are permutation invariant in the draws, so multisets of draws are enumerated (asserted once per worker on B=2)", "groups are not called or stop-listed (C07 covers those)"]
@@ -58,6 +60,12 @@ def cases(tier, seed):
                         if tier == "quick" and lam is None and (B == 3 or office == "H"):
                             continue
                         out.append({"kind": "scen", "B": B, "lambda": lam, "fe": fe, "office": office, "bg": bgk, "seed": seed})
+    # presidential correction (reads three remote files, served by the object-store seam): a one-party outstanding county
+    # whose corrected margin lands beyond the feasible range
+    for B in (5, 20):
+        for sign in (1, -1):
+            for pev in (80.0, 60.0):
+                out.append({"kind": "pres", "B": B, "sign": sign, "pev": pev, "seed": seed})
     return out
 
 
@@ -239,6 +247,81 @@ def _scen(case, cov, viol):
     return 1, True
 
 
+def _pres(case, cov, viol):
+    import pandas as pd
+
+    from .. import fakes
+    from ..env import S3_ROOT
+
+    sign = case["sign"]
+    units = E.background(case["seed"], "G", 18, "AABB", partial=0)
+    probes = []
+    for k in range(3):
+        p = E.make_probe(case["seed"], k, "nonrep_partial", "pop0" if k < 2 else "newstate", weights="twoparty")
+        p["pev"] = case["pev"]
+        probes.append(p)
+    # probe 0: (almost) one-party county; counted so far 99.5% for one side
+    p0 = probes[0]
+    two = p0["b_dem"] + p0["b_gop"]
+    big = int(two * 0.98)
+    p0["b_dem"], p0["b_gop"] = (big, two - big) if sign > 0 else (two - big, big)
+    c2 = int(two * case["pev"] / 100)
+    cb = int(c2 * 0.995)
+    p0["r_dem"], p0["r_gop"] = (cb, c2 - cb) if sign > 0 else (c2 - cb, cb)
+    p0["r_turnout"] = c2 + 2
+    units += probes
+    for u in units:  # county-type units: the id is the county, no underscore
+        u["id"] = u["id"].replace("_", "")
+        u["county"] = u["id"]
+    rows_b, rows_r, rows_p = [], [], []
+    for u in units:
+        final_two = max(1, int((u["b_dem"] + u["b_gop"]) * 1.05))
+        if u["pev"] >= 100:
+            m_final = (u["r_dem"] - u["r_gop"]) / max(1, u["r_dem"] + u["r_gop"])
+        else:
+            m_final = (u["b_dem"] - u["b_gop"]) / max(1, u["b_dem"] + u["b_gop"])
+        counted_w = int(final_two * u["pev"] / 100)
+        pred_m, counted_m = m_final - 0.02, m_final - 0.02
+        if u is p0:
+            pred_m, counted_m = sign * 0.97, sign * 0.93  # the down-ballot race runs 6 points ahead in the counted votes
+        rows_b.append({"postal_code": u["postal"], "geographic_unit_fips": u["id"], "baseline_dem": u["b_dem"], "baseline_gop": u["b_gop"]})
+        rows_r.append({"geographic_unit_fips": u["id"], "results_weights": counted_w})
+        rows_p.append({"postal_code": u["postal"], "geographic_unit_fips": u["id"], "pred_margin": pred_m * final_two, "pred_turnout": final_two, "results_margin": counted_m * counted_w})
+    base = f"{S3_ROOT}/{E.ELECTION_ID}"
+    fakes.S3_STORE.clear()
+    fakes.S3_STORE.update(
+        {
+            f"{base}/data/P/data_county.csv": pd.DataFrame(rows_b).to_csv(index=False),
+            f"{base}/results/P/county/current.csv": pd.DataFrame(rows_r).to_csv(index=False),
+            f"{base}/predictions/P/county/unit_data/current.csv": pd.DataFrame(rows_p).to_csv(index=False),
+        }
+    )
+    cfg = E.make_cfg(office="G", unit_type="county", pi_method="bootstrap", estimands=["margin"], features=["baseline_normalized_margin"], alphas=list(ALPHAS),
+                     aggregates=["postal_code", "county_fips", "unit"], model_parameters={"B": case["B"], "lambda_": 1.0, "correct_from_presidential": True})
+    try:
+        res = E.run_estimates(units, cfg)
+    finally:
+        fakes.S3_STORE.clear()
+    if "error" in res:
+        viol(f"run-raised:{res['error'][0]}", f"{case}: {res['error']} {res.get('tb', '')[-300:]}")
+        return 1, True
+    for tname in ("state_data", "county_data"):
+        for r in E.tab_rows(res["ok"][tname]):
+            ident = tuple(r.get(c) for c in ("postal_code", "county_fips") if c in r)
+            if not (-1.0 <= r["pred_margin"] <= 1.0):
+                viol("group-margin-out-of-range", f"{case}: {tname} {ident} pred_margin={r['pred_margin']} (presidential correction)")
+            if not r["pred_turnout"] >= 0:
+                viol("negative-turnout", f"{case}: {tname} {ident} pred_turnout={r['pred_turnout']}")
+            for a in ALPHAS:
+                if not (r[f"lower_{a}_margin"] < r["pred_margin"] < r[f"upper_{a}_margin"]):
+                    viol("group-pred-not-inside", f"{case}: {tname} {ident} alpha={a}")
+    own = [r for r in E.tab_rows(res["ok"]["county_data"]) if r["county_fips"] == p0["id"]]
+    if own and abs(own[0]["pred_margin"]) > 0.9:
+        cov["presidential_correction_at_the_clip"] += 1
+    cov["presidential_runs"] += 1
+    return 1, True
+
+
 def evaluate(case):
     cov = Counter()
     V = []
@@ -247,11 +330,11 @@ def evaluate(case):
         if not any(v["sig"] == f"C06:{kind}" for v in V):
             V.append({"sig": f"C06:{kind}", "msg": str(msg)[:900]})
 
-    runs, nontrivial = {"ranks": _ranks, "draws": _draws, "scen": _scen}[case["kind"]](case, cov, viol)
+    runs, nontrivial = {"ranks": _ranks, "draws": _draws, "scen": _scen, "pres": _pres}[case["kind"]](case, cov, viol)
     out = {"violations": V, "cov": dict(cov), "outcome": sha([v["sig"] for v in V] + [case["kind"]]), "nontrivial": nontrivial, "transitions": max(1, runs)}
     if case["kind"] == "ranks":
         out["n_states"] = runs
     return out
 
 
-REQUIRED_COUNTERS = {"rank_states": 1000000, "draw_matrices": 10000, "scen_group_rows": 100, "extreme_runs": 5}
+REQUIRED_COUNTERS = {"rank_states": 1000000, "draw_matrices": 10000, "scen_group_rows": 100, "extreme_runs": 5, "presidential_runs": 4, "presidential_correction_at_the_clip": 2}
